@@ -1157,4 +1157,375 @@ theorem flat_unwrapNodes (c : Circuit) (order : List Nat) (hwf : c.WF) :
     obtain ⟨h3, h4⟩ := ih (c.unwrapNode n) h1
     exact ⟨h3, by rw [h4, h2]⟩
 
+/-! ### group_one_qubit_gates -/
+
+def gStep1 (s : GroupSt) (n : Nat) : GroupSt :=
+  if s.c.hasOneQubitLabel n then
+    match (s.c.node n).bind fun op => groupGates op.kind with
+    | some gs => { s with c := s.c.removeOp n, gates := s.gates ++ gs }
+    | none => { s with c := s.c.removeOp n, bad := true }
+  else s
+
+def nextIsOne (c : Circuit) (rest : List Nat) : Bool :=
+  match rest with
+  | m :: _ => c.hasOneQubitLabel m
+  | [] => false
+
+def insPos (c : Circuit) (r : Reg) (rest : List Nat) : Nat :=
+  match rest with
+  | m :: _ => (c.wire r).idxOf m + 1
+  | [] => 0
+
+def gStep2 (r : Reg) (rest : List Nat) (s1 : GroupSt) : GroupSt :=
+  if !nextIsOne s1.c rest && !s1.gates.isEmpty then
+    { s1 with c := s1.c.insertAt ⟨.wrapper s1.gates, [r], [], false⟩ [⟨r, insPos s1.c r rest⟩], gates := [] }
+  else s1
+
+theorem groupWalk_cons (r : Reg) (n : Nat) (rest : List Nat) (s : GroupSt) :
+    groupWalk r (n :: rest) s = groupWalk r rest (gStep2 r rest (gStep1 s n)) := rfl
+
+theorem groupWalk_nil (r : Reg) (s : GroupSt) : groupWalk r [] s = s := rfl
+
+
+def pend (gates : List G1) : List Item := (dropI (unwrapList gates)).map Item.g
+
+theorem pend_append (a b : List G1) : pend (a ++ b) = pend b ++ pend a := by
+  simp [pend, unwrapList, dropI_append]
+
+theorem pend_nil : pend [] = [] := rfl
+
+/-- one-qubit-labelled operations act on one register; one-qubit gates have no classical register -/
+def Circuit.Arity1 (c : Circuit) : Prop :=
+  ∀ n op, c.node n = some op → op.kind.oneQubitLabel = true →
+    (∃ r, op.q = [r]) ∧ (op.kind.isGate1 = true → op.cr = [])
+
+theorem gStep2_bad (r : Reg) (rest : List Nat) (s : GroupSt) : (gStep2 r rest s).bad = s.bad := by
+  unfold gStep2
+  split <;> rfl
+
+theorem gStep1_bad (s : GroupSt) (n : Nat) (h : (gStep1 s n).bad = false) : s.bad = false := by
+  unfold gStep1 at h
+  split at h
+  · split at h
+    · exact h
+    · cases h
+  · exact h
+
+theorem groupWalk_bad (r : Reg) (rest : List Nat) (s : GroupSt) (h : (groupWalk r rest s).bad = false) : s.bad = false := by
+  induction rest generalizing s with
+  | nil => exact h
+  | cons n rest ih =>
+    rw [groupWalk_cons] at h
+    have := ih _ h
+    rw [gStep2_bad] at this
+    exact gStep1_bad s n this
+
+structure GInv (c0 : Circuit) (r : Reg) (rest : List Nat) (s : GroupSt) : Prop where
+  wf : s.c.WF
+  ar : s.c.Arity1
+  hne : s.c.ne = c0.ne
+  hnp : s.c.np = c0.np
+  hnc : s.c.nc = c0.nc
+  split : ∃ S, s.c.wire r = rest.reverse ++ S ∧ c0.F (c0.wire r) = s.c.F rest.reverse ++ pend s.gates ++ s.c.F S
+  others : ∀ r', r' ∈ c0.qregs → r' ≠ r → s.c.F (s.c.wire r') = c0.F (c0.wire r')
+  pendOk : s.gates ≠ [] → ∃ m rest', rest = m :: rest' ∧ s.c.hasOneQubitLabel m = true
+
+/-- the facts after the first half of an iteration (the node has been collected, nothing inserted yet) -/
+structure GInv1 (c0 : Circuit) (r : Reg) (rest : List Nat) (s1 : GroupSt) : Prop where
+  wf : s1.c.WF
+  ar : s1.c.Arity1
+  hne : s1.c.ne = c0.ne
+  hnp : s1.c.np = c0.np
+  hnc : s1.c.nc = c0.nc
+  split : ∃ S, s1.c.wire r = rest.reverse ++ S ∧ c0.F (c0.wire r) = s1.c.F rest.reverse ++ pend s1.gates ++ s1.c.F S
+  others : ∀ r', r' ∈ c0.qregs → r' ≠ r → s1.c.F (s1.c.wire r') = c0.F (c0.wire r')
+
+theorem Arity1_removeOp (c : Circuit) (n : Nat) (h : c.Arity1) : (c.removeOp n).Arity1 := by
+  intro m op hm hl
+  rw [removeOp_node] at hm
+  by_cases hmn : m = n
+  · rw [if_pos hmn] at hm; cases hm
+  · rw [if_neg hmn] at hm; exact h m op hm hl
+
+theorem flatOp_eq_pend (op : Op) (gs : List G1) (h : groupGates op.kind = some gs) : flatOp op = pend gs := by
+  cases hk : op.kind <;> simp [hk, groupGates] at h
+  · subst h; simp [flatOp, hk, pend]
+  · subst h; simp [flatOp, hk, pend, unwrapList]
+
+theorem gStep1_inv (c0 : Circuit) (r : Reg) (n : Nat) (rest : List Nat) (s : GroupSt) (hr : r ∈ c0.qregs)
+    (h : GInv c0 r (n :: rest) s) (hb : (gStep1 s n).bad = false) : GInv1 c0 r rest (gStep1 s n) := by
+  obtain ⟨hwf, har, hne, hnp, hnc, ⟨S, hwire, hF⟩, hothers, hpend⟩ := h
+  have hrty : r.ty ≠ .c := qregs_ty c0 r hr
+  have hwire' : s.c.wire r = rest.reverse ++ n :: S := by rw [hwire]; simp
+  have hnd := hwf.nodup r
+  rw [hwire'] at hnd
+  obtain ⟨hn1, hn2⟩ := not_mem_of_nodup_middle hnd
+  unfold gStep1 at hb ⊢
+  split
+  · rename_i hlab
+    rw [if_pos hlab] at hb
+    -- the node carries the label one-qubit
+    unfold Circuit.hasOneQubitLabel at hlab
+    cases hnode : s.c.node n with
+    | none => simp [hnode] at hlab
+    | some op =>
+      simp only [hnode] at hlab
+      cases hg : groupGates op.kind with
+      | none => simp [hnode, hg] at hb
+      | some gs =>
+        simp only [Option.bind_some, hg]
+        obtain ⟨⟨r0, hq0⟩, _⟩ := har n op hnode hlab
+        have hr0 : r0 = r := by
+          have := (hwf.qwire n op hnode r hrty).mp (by rw [hwire']; simp)
+          rw [hq0, List.mem_singleton] at this
+          exact this.symm
+        have hnodes : ∀ l : List Nat, n ∉ l → (s.c.removeOp n).F l = s.c.F l := by
+          intro l hl
+          apply F_congr
+          intro m hm
+          rw [removeOp_node, if_neg (fun (h : m = n) => hl (h ▸ hm))]
+        refine ⟨WF_removeOp _ n hwf, Arity1_removeOp _ n har, hne, hnp, hnc, ⟨S, ?_, ?_⟩, ?_⟩
+        · show (s.c.wire r).filter (fun m => m ≠ n) = _
+          rw [hwire', List.filter_append, List.filter_cons_of_neg (by simp), filter_ne_of_not_mem _ n hn1,
+            filter_ne_of_not_mem _ n hn2]
+        · show _ = (s.c.removeOp n).F rest.reverse ++ pend (s.gates ++ gs) ++ (s.c.removeOp n).F S
+          rw [hnodes _ hn1, hnodes _ hn2, hF, pend_append, List.reverse_cons, F_append, F_single_some _ n op hnode,
+            flatOp_eq_pend op gs hg]
+          simp [List.append_assoc]
+        · intro r' hr' hne'
+          have hnot : n ∉ s.c.wire r' := by
+            intro hin
+            have := (hwf.qwire n op hnode r' (qregs_ty c0 r' hr')).mp hin
+            rw [hq0, List.mem_singleton, hr0] at this
+            exact hne' this
+          have : (s.c.removeOp n).wire r' = s.c.wire r' := filter_ne_of_not_mem _ n hnot
+          rw [this, hnodes _ hnot]
+          exact hothers r' hr' hne'
+  · rename_i hlab
+    have hg : s.gates = [] := by
+      cases hgs : s.gates with
+      | nil => rfl
+      | cons g gs =>
+        obtain ⟨m, rest', hm, hl⟩ := hpend (by rw [hgs]; simp)
+        cases hm
+        exact absurd hl hlab
+    refine ⟨hwf, har, hne, hnp, hnc, ⟨n :: S, hwire', ?_⟩, hothers⟩
+    rw [hF, hg, List.reverse_cons, F_append, F_cons s.c n S]
+    simp [pend_nil, List.append_assoc]
+
+
+theorem Arity1_insertAt (c : Circuit) (op : Op) (es : List Edge) (h : c.Arity1)
+    (hop : op.kind.oneQubitLabel = true → (∃ r, op.q = [r]) ∧ (op.kind.isGate1 = true → op.cr = [])) :
+    (c.insertAt op es).Arity1 := by
+  intro m op' hm hl
+  rw [insertAt_node] at hm
+  by_cases hmk : m = c.nid + 1
+  · rw [if_pos hmk] at hm; cases hm; exact hop hl
+  · rw [if_neg hmk] at hm; exact h m op' hm hl
+
+theorem hasOneQubitLabel_congr {c c' : Circuit} {m : Nat} (h : c'.node m = c.node m) :
+    c'.hasOneQubitLabel m = c.hasOneQubitLabel m := by
+  simp [Circuit.hasOneQubitLabel, h]
+
+theorem gStep2_inv (c0 : Circuit) (r : Reg) (rest : List Nat) (s1 : GroupSt) (hr : r ∈ c0.qregs)
+    (h : GInv1 c0 r rest s1) : GInv c0 r rest (gStep2 r rest s1) := by
+  obtain ⟨hwf, har, hne, hnp, hnc, ⟨S, hwire, hF⟩, hothers⟩ := h
+  have hrq := (mem_qregs c0 r).mp hr
+  have hrv : s1.c.validReg r = true := by rw [validReg_congr hne hnp hnc]; exact hrq.1
+  by_cases hflush : (!nextIsOne s1.c rest && !s1.gates.isEmpty) = true
+  · rw [gStep2, if_pos hflush]
+    simp only [Bool.and_eq_true, Bool.not_eq_true', List.isEmpty_eq_false_iff] at hflush
+    -- the insertion position is right after the unprocessed part
+    have hpos : insPos s1.c r rest = rest.reverse.length := by
+      cases rest with
+      | nil => rfl
+      | cons m rest' =>
+        simp only [insPos, List.reverse_cons, List.length_append, List.length_reverse, List.length_singleton]
+        have hnd := hwf.nodup r
+        rw [hwire, List.reverse_cons, List.append_assoc] at hnd
+        have hm := (not_mem_of_nodup_middle (X := rest'.reverse) (B := S) (by simpa using hnd)).1
+        rw [hwire, List.reverse_cons, List.append_assoc, List.idxOf_append, if_neg hm]
+        simp
+    rw [hpos]
+    have hes : (([⟨r, rest.reverse.length⟩] : List Edge).map (·.r)).Nodup := by simp
+    have hk : ∀ l : List Nat, (∀ m, m ∈ l → m ∈ s1.c.wire r ∨ ∃ r', m ∈ s1.c.wire r') →
+        (s1.c.insertAt ⟨.wrapper s1.gates, [r], [], false⟩ [⟨r, rest.reverse.length⟩]).F l = s1.c.F l := by
+      intro l hl
+      apply F_congr
+      intro m hm
+      have hle : m ≤ s1.c.nid := by
+        rcases hl m hm with h | ⟨r', h⟩
+        · exact hwf.wire_le h
+        · exact hwf.wire_le h
+      rw [insertAt_node, if_neg (by omega)]
+    have hw' : (s1.c.insertAt ⟨.wrapper s1.gates, [r], [], false⟩ [⟨r, rest.reverse.length⟩]).wire r =
+        rest.reverse ++ (s1.c.nid + 1) :: S := by
+      have := insertAt_wire_of_mem s1.c ⟨.wrapper s1.gates, [r], [], false⟩ [⟨r, rest.reverse.length⟩] hes
+        ⟨r, rest.reverse.length⟩ (List.mem_singleton.mpr rfl)
+      simp only at this
+      rw [this, hwire, ins_at_length]
+    refine ⟨?_, ?_, ?_, ?_, ?_, ⟨(s1.c.nid + 1) :: S, hw', ?_⟩, ?_, ?_⟩
+    · refine WF_insertAt s1.c _ _ hwf hes ?_ ?_ ?_ ?_
+      · intro e he; simp only [List.mem_singleton] at he; subst he; exact hrv
+      · intro r' _; simp
+      · intro i hi
+        simp only [List.map_cons, List.map_nil, List.mem_singleton] at hi
+        exact absurd (by rw [← hi]) hrq.2
+      · intro r' hr'
+        simp only [List.mem_singleton] at hr'
+        subst hr'; exact ⟨hrv, hrq.2⟩
+    · exact Arity1_insertAt s1.c _ _ har (fun _ => ⟨⟨r, rfl⟩, fun _ => rfl⟩)
+    · rw [insertAt_ne]; exact hne
+    · rw [insertAt_np]; exact hnp
+    · rw [insertAt_nc]; exact hnc
+    · show _ = _ ++ pend [] ++ _
+      rw [F_cons _ (s1.c.nid + 1) S, F_single_some _ _ _ (by rw [insertAt_node, if_pos rfl]),
+        hk rest.reverse (fun m hm => Or.inl (by rw [hwire]; exact List.mem_append_left _ hm)),
+        hk S (fun m hm => Or.inl (by rw [hwire]; exact List.mem_append_right _ hm)), hF]
+      simp [pend, flatOp, List.append_assoc, unwrapList, dropI]
+    · intro r' hr' hne'
+      rw [insertAt_wire_of_not_mem s1.c _ _ r' (by simpa using hne'), hk _ (fun m hm => Or.inr ⟨r', hm⟩)]
+      exact hothers r' hr' hne'
+    · intro h; exact absurd rfl h
+  · rw [gStep2, if_neg hflush]
+    refine ⟨hwf, har, hne, hnp, hnc, ⟨S, hwire, hF⟩, hothers, ?_⟩
+    intro hg
+    cases rest with
+    | nil => simp [nextIsOne, hg] at hflush
+    | cons m rest' =>
+      refine ⟨m, rest', rfl, ?_⟩
+      simp only [nextIsOne, Bool.and_eq_true, Bool.not_eq_true', List.isEmpty_eq_false_iff, not_and] at hflush
+      cases hl : s1.c.hasOneQubitLabel m with
+      | true => rfl
+      | false => exact absurd (hflush hl) (by simpa using hg)
+
+/-- the walk over one quantum register keeps the invariant -/
+theorem groupWalk_inv (c0 : Circuit) (r : Reg) (hr : r ∈ c0.qregs) (rest : List Nat) (s : GroupSt)
+    (h : GInv c0 r rest s) (hb : (groupWalk r rest s).bad = false) : GInv c0 r [] (groupWalk r rest s) := by
+  induction rest generalizing s with
+  | nil => exact h
+  | cons n rest ih =>
+    rw [groupWalk_cons] at hb ⊢
+    have hb1 : (gStep1 s n).bad = false := by
+      have := groupWalk_bad r rest _ hb
+      rw [gStep2_bad] at this
+      exact this
+    exact ih _ (gStep2_inv c0 r rest _ hr (gStep1_inv c0 r n rest s hr h hb1)) hb
+
+
+/-- on a classical wire the walk either meets a `MeasurementZ` (→ `AssertionError`) or changes nothing -/
+theorem groupWalk_classical (r : Reg) (hty : r.ty = .c) (rest : List Nat) (s : GroupSt) (hwf : s.c.WF) (har : s.c.Arity1)
+    (hg : s.gates = []) (hrest : ∀ m, m ∈ rest → m ∈ s.c.wire r) (hb : (groupWalk r rest s).bad = false) :
+    groupWalk r rest s = s := by
+  induction rest generalizing s with
+  | nil => rfl
+  | cons n rest ih =>
+    rw [groupWalk_cons] at hb ⊢
+    have hb1 : (gStep1 s n).bad = false := by
+      have := groupWalk_bad r rest _ hb
+      rw [gStep2_bad] at this
+      exact this
+    have h1 : gStep1 s n = s := by
+      unfold gStep1 at hb1 ⊢
+      split
+      · rename_i hlab
+        rw [if_pos hlab] at hb1
+        unfold Circuit.hasOneQubitLabel at hlab
+        cases hnode : s.c.node n with
+        | none => simp [hnode] at hlab
+        | some op =>
+          simp only [hnode] at hlab
+          have hin : n ∈ s.c.wire ⟨.c, r.idx⟩ := by
+            have := hrest n List.mem_cons_self
+            rcases r with ⟨ty, i⟩
+            simp only at hty
+            subst hty
+            exact this
+          have hcr := hwf.cwire n op hnode r.idx hin
+          cases hk : op.kind with
+          | wrapper gs =>
+            have := (har n op hnode hlab).2 (by rw [hk]; rfl)
+            rw [this] at hcr; cases hcr
+          | base g =>
+            have := (har n op hnode hlab).2 (by rw [hk]; rfl)
+            rw [this] at hcr; cases hcr
+          | measZ => simp [hnode, hk, groupGates] at hb1
+          | cnot => simp [hk, Kind.oneQubitLabel] at hlab
+          | cz => simp [hk, Kind.oneQubitLabel] at hlab
+          | ccnot => simp [hk, Kind.oneQubitLabel] at hlab
+          | ccz => simp [hk, Kind.oneQubitLabel] at hlab
+          | mcr => simp [hk, Kind.oneQubitLabel] at hlab
+      · rfl
+    have h2 : gStep2 r rest s = s := by
+      unfold gStep2
+      rw [hg]
+      simp
+    rw [h1, h2] at hb ⊢
+    exact ih s hwf har hg (fun m hm => hrest m (List.mem_cons_of_mem _ hm)) hb
+
+/-- the walk over one register (any register) keeps well-formedness and `flat`, unless it raises -/
+theorem groupWalk_reg (r : Reg) (s : GroupSt) (hwf : s.c.WF) (har : s.c.Arity1)
+    (hb : (groupWalk r (s.c.wire r).reverse { s with gates := [] }).bad = false) :
+    (groupWalk r (s.c.wire r).reverse { s with gates := [] }).c.WF ∧
+    (groupWalk r (s.c.wire r).reverse { s with gates := [] }).c.Arity1 ∧
+    (groupWalk r (s.c.wire r).reverse { s with gates := [] }).c.flat = s.c.flat := by
+  by_cases hty : r.ty = .c
+  · rw [groupWalk_classical r hty _ { s with gates := [] } hwf har rfl (fun m hm => by simpa using hm) hb]
+    exact ⟨hwf, har, rfl⟩
+  · by_cases hv : s.c.validReg r = true
+    · have hr : r ∈ s.c.qregs := (mem_qregs s.c r).mpr ⟨hv, hty⟩
+      have h0 : GInv s.c r (s.c.wire r).reverse { s with gates := [] } :=
+        ⟨hwf, har, rfl, rfl, rfl, ⟨[], by simp, by simp [pend_nil, F_nil]⟩, fun _ _ _ => rfl, fun h => absurd rfl h⟩
+      have hinv := groupWalk_inv s.c r hr _ _ h0 hb
+      obtain ⟨hwf', har', hne, hnp, hnc, ⟨S, hwire, hF⟩, hothers, hpend⟩ := hinv
+      refine ⟨hwf', har', flat_eq_of hne hnp hnc (fun r' hr' => ?_)⟩
+      rw [flatWire_eq_F, flatWire_eq_F]
+      by_cases hrr : r' = r
+      · subst hrr
+        have hg : (groupWalk r' (s.c.wire r').reverse { s with gates := [] }).gates = [] := by
+          cases hgs : (groupWalk r' (s.c.wire r').reverse { s with gates := [] }).gates with
+          | nil => rfl
+          | cons g gs =>
+            obtain ⟨m, rest', hm, _⟩ := hpend (by rw [hgs]; simp)
+            cases hm
+        rw [hF, hg, hwire]
+        simp [pend_nil, F_nil]
+      · exact hothers r' hr' hrr
+    · have hw : s.c.wire r = [] := hwf.invalidEmpty r (by simpa using hv)
+      rw [hw]
+      exact ⟨hwf, har, rfl⟩
+
+theorem group_fold_bad (order : List Reg) (s : GroupSt)
+    (h : (order.foldl (fun s r => groupWalk r (s.c.wire r).reverse { s with gates := [] }) s).bad = false) : s.bad = false := by
+  induction order generalizing s with
+  | nil => exact h
+  | cons r order ih =>
+    simp only [List.foldl_cons] at h
+    exact groupWalk_bad r _ { s with gates := [] } (ih _ h)
+
+theorem group_fold (order : List Reg) (s : GroupSt) (hwf : s.c.WF) (har : s.c.Arity1)
+    (h : (order.foldl (fun s r => groupWalk r (s.c.wire r).reverse { s with gates := [] }) s).bad = false) :
+    (order.foldl (fun s r => groupWalk r (s.c.wire r).reverse { s with gates := [] }) s).c.WF ∧
+    (order.foldl (fun s r => groupWalk r (s.c.wire r).reverse { s with gates := [] }) s).c.Arity1 ∧
+    (order.foldl (fun s r => groupWalk r (s.c.wire r).reverse { s with gates := [] }) s).c.flat = s.c.flat := by
+  induction order generalizing s with
+  | nil => exact ⟨hwf, har, rfl⟩
+  | cons r order ih =>
+    simp only [List.foldl_cons] at h ⊢
+    have hb := group_fold_bad order _ h
+    obtain ⟨h1, h2, h3⟩ := groupWalk_reg r s hwf har hb
+    obtain ⟨h4, h5, h6⟩ := ih _ h1 h2 h
+    exact ⟨h4, h5, by rw [h6, h3]⟩
+
+/-- `flat (group_one_qubit_gates c) = flat c` whenever the call does not raise, whatever the register order -/
+theorem flat_groupOneQubitGates (c : Circuit) (order : List Reg) (c' : Circuit) (hwf : c.WF) (har : c.Arity1)
+    (h : c.groupOneQubitGates order = Except.ok c') : c'.WF ∧ c'.Arity1 ∧ c'.flat = c.flat := by
+  unfold Circuit.groupOneQubitGates at h
+  simp only at h
+  split at h
+  · cases h
+  · rename_i hb
+    cases h
+    exact group_fold order ⟨c, [], false⟩ hwf har (by simpa using hb)
+
 end Graphiq.Wire
